@@ -86,7 +86,41 @@ def setup(ctx, model, lattice=True, keys=None):
         p, x = a[0], a[1]
         if not isinstance(p, PolyFit):
             raise AnalysisError("numpy.polyval of something that is not a numpy.polyfit result")
+        if p.flaw:
+            return linear("POLYFIT_" + p.flaw, [p.x, p.y, p.deg, as_sym(x)], 1)
         return linear("POLYFIT", [p.x, p.y, p.deg, as_sym(x)], 1)
+
+    def vander(ev, a, k):
+        b = dict(zip(["x", "N", "increasing"], a))
+        b.update(k)
+        if "N" not in b or not isinstance(b.get("increasing", False), bool):
+            raise AnalysisError("numpy.vander without a column count")
+        return VanderV(as_sym(b["x"]), as_sym(b["N"]), b.get("increasing", False))
+
+    def lstsq(ev, a, k):
+        b = dict(zip(["a", "b", "rcond"], a))
+        b.update(k)
+        if not isinstance(b.get("a"), VanderV):
+            raise AnalysisError("numpy.linalg.lstsq on something that is not a Vandermonde design matrix")
+        rc = b.get("rcond")
+        flaw = None
+        if rc is not None:
+            # numpy.polyfit solves the same least-squares problem (on scaled columns) with the cut-off len(x) * eps: a cut-off of that size
+            # never drops a direction of a physical table; a larger one silently truncates the fit for narrow volume ranges
+            r_ = as_sym(rc)
+            r_ = r_.subs({s_: 1000 for s_ in r_.free_symbols if s_.is_integer})
+            if not r_.is_number:
+                raise AnalysisError("numpy.linalg.lstsq with a cut-off that is not a constant")
+            if r_ > sp.Rational(1, 10 ** 10):
+                flaw = "TRUNCATED"
+        if b["a"].increasing:
+            flaw = (flaw + "_" if flaw else "") + "INCREASING_POWERS"
+        pf = PolyFit(b["a"].x, as_sym(b["b"]), b["a"].ncols - 1, flaw)
+        return Tup([pf, sp.Symbol("LSQ_RESID"), sp.Symbol("LSQ_RANK"), sp.Symbol("LSQ_SV")])
+
+    def finfo(ev, a, k):
+        from ..sym import Obj as _Obj
+        return _Obj("ext:numpy.finfo", {"eps": sp.Rational(1, 2 ** 52), "tiny": sp.Rational(1, 2 ** 1022), "resolution": sp.Rational(1, 10 ** 15)})
 
     def len_(ev, a, k):
         v = a[0]
@@ -103,6 +137,7 @@ def setup(ctx, model, lattice=True, keys=None):
         f"{TASKLIST}.get_adiabatic_results": res("AD"), f"{TASKLIST}.get_isothermal_results": res("IS"),
         "qha.grid_interpolation.calculate_eulerian_strain": strain_intr, "qha.fitting.polynomial_least_square_fitting": plsf_intr,
         "numpy.polyfit": polyfit, "numpy.polyval": polyval, "builtins.len": len_,
+        "numpy.vander": vander, "numpy.linalg.lstsq": lstsq, "numpy.finfo": finfo,
     })
     for kname in ("numpy.array", "range", "numpy.gradient"):
         intr[kname] = df_wrap(DF_LIB[kname])
@@ -113,8 +148,16 @@ def setup(ctx, model, lattice=True, keys=None):
 
 
 class PolyFit:
-    def __init__(self, x, y, deg):
+    def __init__(self, x, y, deg, flaw=None):
         self.x, self.y, self.deg = x, y, deg
+        self.flaw = flaw        # what makes these coefficients differ from numpy.polyfit's (a truncating cut-off, increasing powers)
+
+
+class VanderV:
+    """numpy.vander(x, N): the design matrix of a polynomial fit of degree N - 1 (decreasing powers unless increasing=True)"""
+
+    def __init__(self, x, ncols, increasing):
+        self.x, self.ncols, self.increasing = x, ncols, increasing
 
 
 def at0(x):
